@@ -1,5 +1,12 @@
 use vverif::engine::{Ctx, Tier};
 
+struct StopOnDrop<'a>(&'a std::sync::atomic::AtomicBool);
+impl Drop for StopOnDrop<'_> {
+    fn drop(&mut self) {
+        self.0.store(true, std::sync::atomic::Ordering::SeqCst);
+    }
+}
+
 fn usage() -> ! {
     eprintln!("usage: vcheck <C01..C20> [--tier quick|thorough] [--seed N] [--replay FILE]");
     std::process::exit(2)
@@ -64,9 +71,8 @@ fn main() {
             let done = std::sync::atomic::AtomicBool::new(false);
             let r = std::thread::scope(|s| {
                 s.spawn(|| ctx.watchdog(&done, "exploration"));
-                let r = vverif::props::run(&id, &ctx);
-                done.store(true, std::sync::atomic::Ordering::SeqCst);
-                r
+                let _stop = StopOnDrop(&done); // also when the run unwinds: the scope must not wait for the watchdog forever
+                vverif::props::run(&id, &ctx)
             });
             match r {
                 Some(level) => ctx.finish(level),
@@ -97,9 +103,8 @@ fn main() {
             let done = std::sync::atomic::AtomicBool::new(false);
             let r = std::thread::scope(|s| {
                 s.spawn(|| ctx.watchdog(&done, "exploration"));
-                let r = vverif::props::replay(&id, &ctx, &case);
-                done.store(true, std::sync::atomic::Ordering::SeqCst);
-                r
+                let _stop = StopOnDrop(&done);
+                vverif::props::replay(&id, &ctx, &case)
             });
             match r {
                 Some(level) => ctx.finish(level),
